@@ -27,6 +27,13 @@ package config
 //@   ensures[C20] err == nil ==> result0 != nil && ValidSpec(result0)
 //@   ensures[C20] err != nil ==> result0 == nil
 //@   ensures[C20] filewrites == old(filewrites) && renames == old(renames)
+//@   ensures[C20] manifestRead ==> err != ErrManifestNotFound
+//@   ghost entry: manifestRead = false
+//@   ghost after call os.ReadFile#1: manifestRead = (err == nil)
+//@   modifies manifestRead
+// manifestRead: the manifest file exists and could be read - from then on the answer is a configuration or an error
+// that makes opening fail, never "no database here" (which lets the engine start from defaults).
+//@ ghost global manifestRead bool
 
 //@ func NewDefaultConfig
 //@   ensures[C20] result != nil && fresh(result) && ValidSpec(result)
